@@ -56,6 +56,7 @@ def TaskNoEmit (m : Nat) : Task → Prop
   | .catches cs _ => ∀ c ∈ cs, NoEmit m c.2.2
   | .callF _ _ => True
   | .nat .. => True
+  | .disp .. => True
   | .loopL _ _ body => NoEmit m body
   | .loopG _ _ segs tail body => (∀ s ∈ segs, NoEmit m s.1 ∧ NoEmit m s.2) ∧ NoEmit m tail ∧ NoEmit m body
 
@@ -133,6 +134,7 @@ theorem noEmit_run (cfg : Cfg) (P : Prog) (m : Nat) (hP : ProgNoEmit m P) :
   | succ n ih =>
     intro t σ s σ' ht h
     have hc : ∀ f args, TaskNoEmit m (.callF f args) := fun _ _ => trivial
+    have hdisp : ∀ todo acc, TaskNoEmit m (.disp todo acc) := fun _ _ => trivial
     have hn : ∀ k f r items accL accV, TaskNoEmit m (.nat k f r items accL accV) := fun _ _ _ _ _ _ => trivial
     cases t with
     | ev e =>
@@ -269,6 +271,10 @@ theorem noEmit_run (cfg : Cfg) (P : Prog) (m : Nat) (hP : ProgNoEmit m P) :
       | cons it rest =>
         simp only [run] at h
         (repeat' split at h) <;> grind
+    | disp todo acc =>
+      have hd : ∀ todo acc, TaskNoEmit m (.disp todo acc) := fun _ _ => trivial
+      simp only [run] at h
+      (repeat' split at h) <;> grind
     | loopL x items body =>
       cases items with
       | nil => simp only [run] at h; grind
